@@ -813,10 +813,11 @@ def plan_c03(tier, with_corpus=True):
         names = corpus_names("node")
         cit = [dict(fam="corpus", sub="node", name=n, lift=l, api="optimize", opts={}, entry="proto")
                for l in lifts for n in names]
-        if tier != "quick":
-            for sub in ("simple", "pytorch-operator", "pytorch-converted"):
-                cit += [dict(fam="corpus", sub=sub, name=n, lift=l, api="optimize", opts={}, entry="proto")
-                        for l in ("init", "asis") for n in corpus_names(sub)]
+        # the converted models shipped with onnx (simple / pytorch-operator / pytorch-converted: multi-node graphs);
+        # quick: inputs -> initializers only
+        for sub in ("simple", "pytorch-operator", "pytorch-converted"):
+            cit += [dict(fam="corpus", sub=sub, name=n, lift=l, api="optimize", opts={}, entry="proto")
+                    for l in (("init",) if tier == "quick" else ("init", "asis")) for n in corpus_names(sub)]
         fam["corpus"] = dict(states=len(cit) + 1, transitions=len(cit), leaves=len(cit), pruned=0, capped=False,
                              bound=0, dimensions={"model": len(set(i["name"] for i in cit)), "lift": len(lifts)})
         items += cit
